@@ -16,7 +16,21 @@ ASSUMPTIONS = [
 ]
 
 KINDS = ["sphere", "layered", "cluster_mie", "cluster_ms", "spheroid", "cylinder", "mielens", "amielens", "lens"]
-TOL = {"mie": 1e-10, "ms": 3e-6, "tmatrix": 1e-9, "mielens": 1e-10, "amielens": 1e-10, "lens": 1e-10}
+# Tolerances.  The closed-form theories evaluate smooth expressions of the dimensionless inputs: a rescaling
+# perturbs every input by at most one rounding and the result by ~ x * eps (x <= ~1e3): 1e-10.
+# The two iterative solvers do not: the T-matrix inversion amplifies a one-ulp input perturbation by its condition
+# number, and Multisphere additionally makes discrete decisions (iteration count against `eps`, the Wiscombe-type
+# cluster truncation order via nint()) that a one-ulp perturbation can flip.  For these the tolerance is
+#   max(floor, 30 * measured response of this very case to a +-1, 3 ulp change of the wavelength)
+# where the floor is the granularity of the stopping rules actually in force (see MS_OPTS).
+# T-matrix floor: ampld.lp.f nudges every angle by EPS=1e-7 rad away from pi/2 and pi ("IF (PHIL.LT.PIN) PHIL=PHIL+EPS",
+# else -EPS): a point mathematically on such a line lands on either side by rounding, a step of 2e-7 rad in the
+# direction at which the amplitude matrix is evaluated
+TOL = {"mie": 1e-10, "tmatrix": 2e-6, "mielens": 1e-10, "amielens": 1e-10, "lens": 1e-10}
+# Multisphere option sets: floor = 3*sqrt(eps) for the iteration stopping rule (eps bounds the squared residual),
+# and for the converged set the truncation error of the cluster expansion at the Wiscombe order (~1e-7, one order
+# more or less changes the field by that much)
+MS_OPTS = {"default": (False, 3e-3), "tight": (True, 1e-4), "converged": ("converged", 1e-5)}
 
 
 def strat(tier):
@@ -24,7 +38,9 @@ def strat(tier):
     u = st.one_of(st.floats(-6.0, 6.0), st.integers(-20, 20).map(lambda i: i * math.log10(2.0)),
                   st.sampled_from([-6.0, 6.0, -3.0, 3.0]))
     return st.tuples(gen.case_strategy(KINDS, max_side=side, any_norm=True), u,
-                     st.sampled_from(["scale", "scale", "reduce"])).map(lambda t: dict(t[0], u=t[1], mode=t[2]))
+                     st.sampled_from(["scale", "scale", "reduce"]),
+                     st.sampled_from(["default", "tight", "converged", "converged"])).map(
+        lambda t: dict(t[0], u=t[1], mode=t[2], ms_opts=t[3]))
 
 
 def _all_results(case, o):
@@ -59,14 +75,37 @@ def run(case):
     else:
         f = 1.0
         o2 = dict(o, nm=1.0, wl=o["wl"] / o["nm"])
+    noise = 0.0
+    if t == "ms":
+        # detector outside the sphere circumscribing the cluster with a margin (as in C09): inside it the
+        # cluster-centred expansion does not converge and the value is series noise
+        opt = case.get("ms_opts", "default")
+        sc = dict(sc, th=dict(sc["th"], tight=MS_OPTS[opt][0]), pl=dict(sc["pl"], kgap=40.0 + sc["pl"]["kgap"]))
+        case = dict(case, sc=sc)
+        labels.append("ms_" + opt)
     try:
         a = _all_results(case, o)
         b = _all_results(case, o2)
+        if t in ("ms", "tmatrix") or sc["kind"] == "layered":
+            # layered spheres: the Yang recursion loses the real part of a_n for small x (C03 known finding), which
+            # makes the cross sections themselves uncertain at that level
+            for j in (1, -1, 3):
+                c = _all_results(case, dict(o, wl=o["wl"] * (1 + j * 2.0 ** -52)))
+                for key in a:
+                    va, vc = np.asarray(a[key]), np.asarray(c[key])
+                    if key == "cross_sections":
+                        noise = max(noise, np.max(np.abs(vc[:3] - va[:3])) / abs(va[2]), abs(vc[3] - va[3]))
+                    else:
+                        noise = max(noise, np.abs(vc - va).max() / max(np.abs(va).max(), 1e-300))
     except Exception as e:
         if type(e).__name__ == "MultisphereFailure":
             return Outcome(None, False, labels + ["MultisphereFailure"], skipped=True)
         raise
-    tol = TOL[t] * TOLX
+    floor = MS_OPTS[case.get("ms_opts", "default")][1] if t == "ms" else TOL[t]
+    tol = max(floor, 30 * noise) * TOLX
+    if noise > 1e-3:
+        # the case itself is numerically unstable to one ulp: nothing can be concluded from it
+        return Outcome(None, False, labels + ["unstable_to_one_ulp"], skipped=True)
     met = {}
     for key in a:
         va, vb = np.asarray(a[key]), np.asarray(b[key])
@@ -99,5 +138,5 @@ SUBCHECKS = [
         "AberratedMieLens, Lens(Mie)); factor 10^u with u uniform in [-6,6] or an exact power of two; or the reduction "
         "(n,n_m,L)->(n/n_m,1,L/n_m); compares field, hologram, intensity, scattering matrix, cross sections (x factor^2); "
         "non-trivial = |u|>=1 (or n_m != 1) and the hologram deviates from 1 by >1e-3",
-        tolerances=TOL),
+        tolerances=dict(TOL, ms_floor_by_options={k: v[1] for k, v in MS_OPTS.items()}, iterative_solvers="max(floor, 30 x response to +-1,3 ulp of the wavelength)")),
 ]
